@@ -1,4 +1,5 @@
 import CCVerif.Lemmas.Convert
+import CCVerif.Lemmas.ConvertIdem
 import CCVerif.Properties.C05
 /-!
 # C05 — the conversion entry point `ccl::rslang::ConvertTo`
@@ -433,5 +434,175 @@ example : ∃ out asc, print .math sampleE3.ast = some out ∧ print .ascii samp
   obtain ⟨asc, h1, _, h2⟩ := convert_idempotent_math_fragment _ sampleE3
     ⟨her, h.1, Or.inl h.2.1, h.2.2.2.1⟩ _ hp ⟨0x222A, by decide +kernel, by decide⟩
   exact ⟨_, asc, hp, h1, h2⟩
+
+/-! ## Part 5 — top-level forms (function definitions, global declarations) -/
+
+/-- `t` is, up to positions, the tree of the well-formed top-level form `d` over `E3` (`PP3.Top`: a phrase, a function definition
+`[x∈S, …] body`, a declaration `X1 :== body`, `S1 ::= body`, `F1 :== [x∈S, …] body`, `X1 :==`) whose leaves conform to the lexer of
+`syn` (the hypotheses of `parse_print_text_top_fragment3`) -/
+def FragmentTop (syn : Syn) (t : Ast) (d : PP3.Top) : Prop :=
+  CCVerif.PE.erA t = d.ast ∧ d.wf = true ∧ d.lexOK syn = true
+
+/-- **convert_of_printed_top**: `convert_of_printed` for the top-level forms — the text of a definition printed in `s` is
+converted into exactly the text printed in the other syntax for the same tree (source-side `lexOK` only). Corollary of the text
+round trip `PP3.top_roundtrip_erA`. -/
+theorem convert_of_printed_top (s : Syn) (t : Ast) (d : PP3.Top) (h : FragmentTop s t d) (out : List Nat)
+    (hout : print (other s) t = some out) :
+    ∃ text, print s t = some text ∧ convertTo (other s) (bytesOf text) = .text (bytesOf out) := by
+  obtain ⟨ht, hw, hl⟩ := h
+  obtain ⟨text, t', hp, hparse, her⟩ := CCVerif.PP3.top_roundtrip_erA s t d ht hw hl
+  refine ⟨text, hp, convertTo_of_parse s text t' hparse out ?_⟩
+  rw [print_of_erA_eq (other s) her]; exact hout
+
+/-- **convert_there_and_back_same_top**: for a top-level form whose leaves conform to both lexers, converting the text printed in
+`s` to the other syntax and back returns the SAME TEXT, byte for byte, and that text parses (in `s`) to `t` up to positions. -/
+theorem convert_there_and_back_same_top (s : Syn) (t : Ast) (d : PP3.Top) (hm : FragmentTop .math t d)
+    (ha : FragmentTop .ascii t d) :
+    ∃ text mid t', print s t = some text ∧ convertTo (other s) (bytesOf text) = .text (bytesOf mid) ∧
+      convertTo s (bytesOf mid) = .text (bytesOf text) ∧
+      parseBytes (some s) (bytesOf text) = some (some t') ∧ Ast.eqv t' t = true := by
+  have hs : FragmentTop s t d := by cases s; exact hm; exact ha
+  have ho : FragmentTop (other s) t d := by cases s; exact ha; exact hm
+  obtain ⟨text, t1, hp, hparse1, her1⟩ := CCVerif.PP3.top_roundtrip_erA s t d hs.1 hs.2.1 hs.2.2
+  obtain ⟨mid, t2, hpo, hparse2, her2⟩ := CCVerif.PP3.top_roundtrip_erA (other s) t d ho.1 ho.2.1 ho.2.2
+  have hc1 : convertTo (other s) (bytesOf text) = .text (bytesOf mid) :=
+    convertTo_of_parse s text t1 hparse1 mid (by rw [print_of_erA_eq _ her1]; exact hpo)
+  have hc2 := convertTo_of_parse (other s) mid t2 hparse2 text (by rw [other_other, print_of_erA_eq _ her2]; exact hp)
+  rw [other_other] at hc2
+  exact ⟨text, mid, t1, hp, hc1, hc2, parseBytes_bytesOf s text t1 hparse1, CCVerif.PE.eqv_of_erA_eq her1⟩
+
+/-- non-vacuity: `F1 :== [α∈ℬ(X1), β∈X1] β∈α` (Greek argument names, MATH → ASCII) -/
+example : ∃ text, print .math (sampleTopIn "α" "β").ast = some text ∧
+    convertTo .ascii (bytesOf text) = .text (bytesOf (units "F1 \\defexpr [a \\in B(X1), b \\in X1] b \\in a")) := by
+  have h := top_text_nonvacuous
+  exact convert_of_printed_top .math _ (sampleTopIn "α" "β") ⟨by rfl, h.1, h.2.1⟩ _ (by decide +kernel)
+
+/-- non-vacuity: `F1 :== [a∈ℬ(X1), b∈X1] b∈a`, there and back from either syntax -/
+example : ∀ s ∈ [Syn.math, .ascii], ∃ text mid t', print s (sampleTopIn "a" "b").ast = some text ∧
+    convertTo (other s) (bytesOf text) = .text (bytesOf mid) ∧ convertTo s (bytesOf mid) = .text (bytesOf text) ∧
+    parseBytes (some s) (bytesOf text) = some (some t') ∧ Ast.eqv t' (sampleTopIn "a" "b").ast = true := by
+  intro s _
+  have h := top_text_nonvacuous
+  exact convert_there_and_back_same_top s _ (sampleTopIn "a" "b") ⟨by rfl, h.2.2.2.1, h.2.2.2.2.1⟩
+    ⟨by rfl, h.2.2.2.1, h.2.2.2.2.2.1⟩
+
+/-! ## Part 6 — idempotence towards ASCII: a parser-failure theorem
+
+The second `ConvertTo(·, ASCII)` reads the once-converted ASCII text with the MATH lexer, where every ASCII operator word `\kw` is
+`\` (SET_MINUS) followed by the identifier `kw`. When that reading does not parse, the text is returned unchanged
+(`convert_idempotent_partial`). -/
+
+/-- **math_parser_rejects_leading_backslash** (parser failure, ALL texts): a text that starts with a backslash, or with one blank
+and a backslash, is rejected by the MATH parser — the scanner's first token is SET_MINUS (`\` is extended by no literal of
+`MathLexerImpl.l`, regenerated table), and no `expression` of the grammar starts with SET_MINUS. -/
+theorem math_parser_rejects_leading_backslash (text rest : List Nat) (h : text = 92 :: rest ∨ text = 32 :: 92 :: rest) :
+    parse .math text = none :=
+  CCVerif.ConvertI.math_rejects_backslash_start text rest h
+
+example : parse .math (units " \\A x \\in X1 x \\noteq {}") = none :=
+  math_parser_rejects_leading_backslash _ _ (Or.inr rfl)
+
+/-- kinds whose ASCII spelling is an operator word with a backslash -/
+def backslashKind (k : Tok) : Bool := (str .ascii k).contains 92
+
+/-- the CONJECTURED general statement (NOT proved, not refuted; the instances below are kernel-evaluated): conversion to ASCII is
+idempotent on the MATH text of every fragment tree that contains at least one operator spelled with a backslash in ASCII. Its
+proof needs the MATH reading of the whole ASCII text (a second chain of tokens `\`, `kw`, …) and a necessary condition for
+acceptance by the parser (an identifier is never followed by the start of an operand unless a quantifier precedes; the MATH
+reading of an ASCII text has no quantifier token). The boundary: `convert_not_idempotent_star` (`X1×X2`, no backslash word at
+all), `convert_not_idempotent_empty_definition` (`X1:==`, outside `E3`: the word ends the text). -/
+def convert_idempotent_ascii_fragment_statement : Prop :=
+  ∀ (t : Ast) (e : E3), FragmentTree .math t e → FragmentTree .ascii t e →
+    e.toks.any (fun tok => backslashKind tok.id) = true →
+    ∀ text, print .math t = some text → convertTwice .ascii (bytesOf text) = convertTo .ascii (bytesOf text)
+
+/-- **convert_idempotent_ascii_fragment_partial1** (the proved part: the backslash word comes FIRST). `t` a fragment tree with
+MATH-conformant leaves (Greek local names allowed) whose transliteration is a fragment tree `e'` with ASCII-conformant leaves, and
+the left-most symbol of the formula is `¬`, `∀` or `∃` (`E3.lead`: a negation, a quantified formula, or a connective whose left
+operand is such a formula printed without parentheses). Then the MATH text is converted to the ASCII text of `t`, and converting
+again changes nothing: the ASCII text starts with ` \neg `, ` \A ` or ` \E ` and `math_parser_rejects_leading_backslash` applies. -/
+theorem convert_idempotent_ascii_fragment_partial1 (t : Ast) (e e' : E3) (h : FragmentTree .math t e)
+    (ha : FragmentTree .ascii (translit .ascii t) e') (hlead : e'.lead = true) :
+    ∃ text asc, print .math t = some text ∧ print .ascii t = some asc ∧
+      convertTo .ascii (bytesOf text) = .text (bytesOf asc) ∧
+      convertTwice .ascii (bytesOf text) = convertTo .ascii (bytesOf text) := by
+  have hpa : print .ascii (translit .ascii t) = some (CCVerif.LexP.render (e'.items .ascii)) := by
+    rw [← CCVerif.PP3.print_erA, ha.1]; exact (CCVerif.PP3.lex_print2 .ascii e' ha.2.1 ha.2.2.1 ha.2.2.2).1
+  obtain ⟨asc', t2, hpa', hparse2, _⟩ := roundtrip_erA .ascii _ e' ha.1 ha.2.1 ha.2.2.1 ha.2.2.2
+  have hasc : asc' = CCVerif.LexP.render (e'.items .ascii) := by
+    rw [hpa] at hpa'; exact (Option.some.inj hpa').symm
+  subst hasc
+  rw [print_translit] at hpa
+  obtain ⟨text, hp, hc1⟩ := convert_of_printed .math t e h _ hpa
+  have hc1 : convertTo .ascii (bytesOf text) = .text (bytesOf (CCVerif.LexP.render (e'.items .ascii))) := hc1
+  refine ⟨text, _, hp, hpa, hc1, convert_idempotent_partial .ascii _ _ hc1 ?_⟩
+  have hsc : ∀ c ∈ CCVerif.LexP.render (e'.items .ascii), isScalar c := fun c hc =>
+    Or.inl (by have := okUnit_ascii (parse_units .ascii _ t2 hparse2 c hc); omega)
+  show (decode (bytesOf (CCVerif.LexP.render (e'.items .ascii)))).map (parse .math) = some none
+  rw [show bytesOf (CCVerif.LexP.render (e'.items .ascii)) = CCVerif.Strings.encode _ from rfl, decode_encode _ hsc,
+    Option.map_some, CCVerif.ConvertI.math_rejects_lead e' hlead]
+
+/-- **convert_idempotent_ascii_fragment_prefix** (names ASCII already): for a fragment tree whose leaves conform to both lexers
+and whose left-most symbol is `¬`, `∀` or `∃`, conversion to ASCII is idempotent on its MATH text. -/
+theorem convert_idempotent_ascii_fragment_prefix (t : Ast) (e : E3) (hm : FragmentTree .math t e) (ha : FragmentTree .ascii t e)
+    (hlead : e.lead = true) :
+    ∃ text asc, print .math t = some text ∧ print .ascii t = some asc ∧
+      convertTo .ascii (bytesOf text) = .text (bytesOf asc) ∧
+      convertTwice .ascii (bytesOf text) = convertTo .ascii (bytesOf text) := by
+  refine convert_idempotent_ascii_fragment_partial1 t e e hm ⟨?_, ha.2.1, ha.2.2.1, ha.2.2.2⟩ hlead
+  rw [CCVerif.PP3.translit_erA, ha.1, (CCVerif.PP3.tclaim .ascii e ha.2.1 ha.2.2.2).a]
+
+/-- `∀ξ∈X1 (ξ≠∅ ⇒ ∃υ∈ξ ¬υ∈X2)` — a quantified formula with Greek names -/
+def sampleQ (x y : String) : E3 :=
+  .quant .FORALL (.one (.atom .ID_LOCAL (.text x))) (.atom .ID_GLOBAL (.text "X1"))
+    (.lbin .IMPLICATION (.pred .NOTEQUAL (.atom .ID_LOCAL (.text x)) (.atom .LIT_EMPTYSET .none))
+      (.quant .EXISTS (.one (.atom .ID_LOCAL (.text y))) (.atom .ID_LOCAL (.text x))
+        (.neg (.pred .IN (.atom .ID_LOCAL (.text y)) (.atom .ID_GLOBAL (.text "X2"))))))
+
+theorem sampleQ_facts :
+    (sampleQ "ξ" "υ").wf = true ∧ (sampleQ "ξ" "υ").isL = true ∧ (sampleQ "ξ" "υ").lexOK .math = true ∧
+    (sampleQ "x" "q").wf = true ∧ (sampleQ "x" "q").isL = true ∧ (sampleQ "x" "q").lexOK .math = true ∧
+    (sampleQ "x" "q").lexOK .ascii = true ∧ (sampleQ "x" "q").lead = true ∧
+    CCVerif.PE.erA (translit .ascii (sampleQ "ξ" "υ").ast) = (sampleQ "x" "q").ast ∧
+    print .ascii (sampleQ "ξ" "υ").ast = some (units " \\A x \\in X1 (x \\noteq {}  \\impl   \\E q \\in x  \\neg q \\in X2)") :=
+  ⟨by decide +kernel, by decide +kernel, by decide +kernel, by decide +kernel, by decide +kernel, by decide +kernel,
+    by decide +kernel, by decide +kernel, by rfl, by decide +kernel⟩
+
+/-- non-vacuity: an ASCII-idempotent quantified formula (Greek names in the MATH original) -/
+example : ∃ text asc, print .math (sampleQ "ξ" "υ").ast = some text ∧ print .ascii (sampleQ "ξ" "υ").ast = some asc ∧
+    convertTo .ascii (bytesOf text) = .text (bytesOf asc) ∧
+    convertTwice .ascii (bytesOf text) = convertTo .ascii (bytesOf text) := by
+  have h := sampleQ_facts
+  exact convert_idempotent_ascii_fragment_partial1 _ (sampleQ "ξ" "υ") (sampleQ "x" "q") ⟨by rfl, h.1, Or.inr h.2.1, h.2.2.1⟩
+    ⟨h.2.2.2.2.2.2.2.2.1, h.2.2.2.1, Or.inr h.2.2.2.2.1, h.2.2.2.2.2.2.1⟩ h.2.2.2.2.2.2.2.1
+
+/-- `¬a∈X1 & b∈X2`: a connective whose left operand is a negation -/
+def sampleNegAnd : E3 :=
+  .lbin .AND (.neg (.pred .IN (.atom .ID_LOCAL (.text "a")) (.atom .ID_GLOBAL (.text "X1"))))
+    (.pred .IN (.atom .ID_LOCAL (.text "b")) (.atom .ID_GLOBAL (.text "X2")))
+
+/-- non-vacuity of the corollary: `¬a∈X1 & b∈X2` and the quantified formula with ASCII names -/
+example : ∀ e ∈ [sampleNegAnd, sampleQ "x" "q"],
+    ∃ text asc, print .math e.ast = some text ∧ print .ascii e.ast = some asc ∧
+      convertTo .ascii (bytesOf text) = .text (bytesOf asc) ∧
+      convertTwice .ascii (bytesOf text) = convertTo .ascii (bytesOf text) := by
+  intro e he
+  simp only [List.mem_cons, List.not_mem_nil, or_false] at he
+  rcases he with rfl | rfl
+  · have hw : sampleNegAnd.wf = true ∧ sampleNegAnd.isL = true ∧ sampleNegAnd.lexOK .math = true ∧
+        sampleNegAnd.lexOK .ascii = true ∧ sampleNegAnd.lead = true := by decide +kernel
+    exact convert_idempotent_ascii_fragment_prefix _ sampleNegAnd ⟨by rfl, hw.1, Or.inr hw.2.1, hw.2.2.1⟩
+      ⟨by rfl, hw.1, Or.inr hw.2.1, hw.2.2.2.1⟩ hw.2.2.2.2
+  · have h := sampleQ_facts
+    exact convert_idempotent_ascii_fragment_prefix _ (sampleQ "x" "q") ⟨by rfl, h.2.2.2.1, Or.inr h.2.2.2.2.1, h.2.2.2.2.2.1⟩
+      ⟨by rfl, h.2.2.2.1, Or.inr h.2.2.2.2.1, h.2.2.2.2.2.2.1⟩ h.2.2.2.2.2.2.2.1
+
+/-- kernel-evaluated instances of the unproved general statement (backslash word NOT in front): `a∈X1`, `X1∪X2∩X3`, the sample of
+`Properties/C05.lean`; and the boundary once more — no backslash word (`X1×X2`), word at the very end (`X1:==`) -/
+example : (∀ s ∈ ["a∈X1", "X1∪X2∩X3", "card(X1)=0 & a∈X1", "D{ξ∈X1 | ξ≠∅}",
+      "I{(x, y) | x:∈X1; (y, z):=R{(a, b):=(x, 0) | pr1(a)∈X2 | (a∪x, b+1)}; y≠∅; z:=R{w:=S1 | w∪X1}}∪X2"],
+      convertTwice .ascii (bytesOf (units s)) = convertTo .ascii (bytesOf (units s))) ∧
+    (∀ s ∈ ["X1×X2", "X1:=="], convertTwice .ascii (bytesOf (units s)) ≠ convertTo .ascii (bytesOf (units s))) := by
+  decide +kernel
 
 end CCVerif.C05
